@@ -592,7 +592,7 @@ class C18(Prop):
         'the command slot; tests/protocols marks it xfail)',
         'arguments are str or utf-8 bytes; encoding is the default utf-8',
     )
-    budget = {'quick': (1500, 4), 'thorough': (20000, 16)}
+    budget = {'quick': (1500, 4), 'thorough': (12000, 16)}
     enum_procs = 8
 
     def setup(self):
